@@ -290,6 +290,8 @@ package iohelp
 //@   ensures okR(er)
 //@   ensures old(er.Err) != nil ==> er.Err != nil
 //@   ensures taken(er.Reader) >= old(taken(er.Reader))
+// a length-limited window that ends before it was read to its end is an error (io.ReadAll alone takes EOF for success)
+//@   ensures [WINDOW] (istype(er.Reader, *io.LimitedReader) && asptr(er.Reader, *io.LimitedReader) != nil && er.Err == nil) ==> asptr(er.Reader, *io.LimitedReader).N <= 0
 //@   modifies er.Err, taken(er.Reader), failed(er.Reader), any(io.LimitedReader.N), fresh(byte), tr(), hw(), alloc()
 
 // Stream readers. [AGREE]: on success the result is what the byte-slice reader returns for the
